@@ -22,6 +22,7 @@ RULE = ('(a) 60 value providers (variables, literals, shrinkable and non-shrinka
         'non-trivial = every case (distinct rule x position); distinct by tag')
 ASSUMPTIONS = ['expected accept/reject is my implementation of README "Types" / "Arrays and strings" / "The speculation operator"; cases the '
                'documentation does not decide (binding a mutable array to a const array variable) are not judged']
+REQUIRED_HIDC_FUNCTIONS = ['ast/expressions:FuncCall.evaluate', 'ast/expressions:Expression.coerce', 'ast/statements:Declaration.evaluate']     # M-COV: deciding code never entered => inconclusive
 MIN_NONTRIVIAL = {'quick': 4000, 'thorough': 6000}
 
 
